@@ -9,7 +9,8 @@ MD = ("| survey |\n| | type | name | label | {s} |\n| | select_one l | q | Q | v
 OK = {"s": "hint", "n": "name", "c": "image", "t": "version"}
 refused = [{"n": "name::en"}, {"c": "list_name::en"}, {"c": "media::image::en::x"}, {"c": "label::en::x"}, {"c": "media"},
            {"s": "type::en"}, {"s": "label::en::x"}, {"s": "image::en::x"}, {"s": "appearance::en"}, {"s": "bind::type::en"},
-           {"s": "bind"}, {"s": "instance"}, {"t": "form_title::en"}, {"t": "namespaces::en"}, {"t": "attribute"}]
+           {"s": "bind"}, {"s": "instance"}, {"s": "disabled::en"}, {"t": "form_title::en"}, {"t": "namespaces::en"},
+           {"t": "attribute"}]
 accepted = [{"s": "hint::en", "c": "media::image::en"}, {"s": "constraint_message::en", "c": "label::en"},
             {"s": "bind::foo", "c": "audio", "t": "attribute::foo"}, {"s": "body:esri:style", "c": "x"}]
 bad = []
